@@ -30,6 +30,8 @@ type Failure struct {
 	Kind   string   `json:"kind"`
 	Trace  []int32  `json:"trace"`
 	Log    []string `json:"log"`
+	Sys    bool     `json:"sys,omitempty"` // systematic schedule: Trace is a decision prefix under pre-emption bound Bound
+	Bound  int      `json:"bound,omitempty"`
 }
 
 type result struct {
@@ -52,7 +54,9 @@ func (res *result) logf(format string, a ...interface{}) {
 
 func mkSched(seed int64, r *rand.Rand, trace []int32, size int) *vs.Sched {
 	var s *vs.Sched
-	if trace != nil {
+	if vs.SysBound >= 0 {
+		s = vs.NewSystematic(trace, vs.SysBound, 0)
+	} else if trace != nil {
 		s = vs.NewReplay(trace)
 	} else {
 		s = vs.New(seed*7919 + 11)
@@ -67,6 +71,9 @@ func mkSched(seed int64, r *rand.Rand, trace []int32, size int) *vs.Sched {
 		s.Strat = vs.RoundRobin
 	}
 	s.MaxSteps = 60000
+	if vs.SysBound >= 0 {
+		s.Strat, s.Spurious = vs.Systematic, false
+	}
 	vs.S = s
 	rtl.VReset()
 	return s
@@ -75,8 +82,8 @@ func mkSched(seed int64, r *rand.Rand, trace []int32, size int) *vs.Sched {
 func runMutex(seed int64, trace []int32) *result {
 	r := rand.New(rand.NewSource(seed*1000003 + 21))
 	res := &result{kind: "mutex"}
-	nth := 2 + r.Intn(4)
-	nops := 1 + r.Intn(4)
+	nth := vs.Cap(2+r.Intn(4), 3)
+	nops := vs.Cap(1+r.Intn(4), 2)
 	s := mkSched(seed, r, trace, nth*nops)
 	res.s = s
 	var mu gsync.Mutex
@@ -128,8 +135,8 @@ func runMutex(seed int64, trace []int32) *result {
 func runRW(seed int64, trace []int32) *result {
 	r := rand.New(rand.NewSource(seed*1000003 + 23))
 	res := &result{kind: "rwmutex"}
-	nth := 2 + r.Intn(4)
-	nops := 1 + r.Intn(4)
+	nth := vs.Cap(2+r.Intn(4), 3)
+	nops := vs.Cap(1+r.Intn(4), 2)
 	s := mkSched(seed, r, trace, nth*nops)
 	res.s = s
 	var rw gsync.RWMutex
@@ -195,7 +202,7 @@ func runRW(seed int64, trace []int32) *result {
 func runWG(seed int64, trace []int32) *result {
 	r := rand.New(rand.NewSource(seed*1000003 + 25))
 	res := &result{kind: "waitgroup"}
-	nworkers := 1 + r.Intn(4)
+	nworkers := vs.Cap(1+r.Intn(4), 2)
 	nwaiters := 1 + r.Intn(2)
 	s := mkSched(seed, r, trace, nworkers+nwaiters)
 	res.s = s
@@ -248,7 +255,7 @@ func runWG(seed int64, trace []int32) *result {
 func runOnce(seed int64, trace []int32) *result {
 	r := rand.New(rand.NewSource(seed*1000003 + 27))
 	res := &result{kind: "once"}
-	nth := 2 + r.Intn(4)
+	nth := vs.Cap(2+r.Intn(4), 3)
 	s := mkSched(seed, r, trace, nth)
 	res.s = s
 	var once gsync.Once
@@ -286,7 +293,7 @@ func runOnce(seed int64, trace []int32) *result {
 func runCond(seed int64, trace []int32) *result {
 	r := rand.New(rand.NewSource(seed*1000003 + 29))
 	res := &result{kind: "cond"}
-	nw := 1 + r.Intn(4)
+	nw := vs.Cap(1+r.Intn(4), 2)
 	nsig := r.Intn(nw + 2)
 	bcast := r.Intn(3) == 0
 	s := mkSched(seed, r, trace, nw+nsig)
@@ -366,17 +373,22 @@ func runCond(seed int64, trace []int32) *result {
 }
 
 type Report struct {
-	Runs        int            `json:"runs"`
-	Distinct    int            `json:"distinct_schedules"`
-	Ops         int            `json:"operations"`
-	Steps       int            `json:"scheduler_steps"`
-	StepLimit   int            `json:"step_limit_inconclusive"`
-	Stuck       int            `json:"quiescent_allowed"`
-	ByKind      map[string]int `json:"runs_by_kind"`
-	Sites       map[string]int `json:"yield_sites"`
-	ClassCounts map[string]int `json:"failure_class_counts"`
-	Failures    []Failure      `json:"failures"`
-	Sample      []string       `json:"sample_log"`
+	Runs         int            `json:"runs"`
+	Distinct     int            `json:"distinct_schedules"`
+	Ops          int            `json:"operations"`
+	Steps        int            `json:"scheduler_steps"`
+	StepLimit    int            `json:"step_limit_inconclusive"`
+	Stuck        int            `json:"quiescent_allowed"`
+	ByKind       map[string]int `json:"runs_by_kind"`
+	Sites        map[string]int `json:"yield_sites"`
+	ClassCounts  map[string]int `json:"failure_class_counts"`
+	Failures     []Failure      `json:"failures"`
+	Sample       []string       `json:"sample_log"`
+	SysWorkloads int            `json:"sys_workloads"`
+	SysComplete  int            `json:"sys_workloads_enumerated_completely"`
+	SysTruncated int            `json:"sys_workloads_truncated"`
+	SysDiverged  int            `json:"sys_diverged_runs"`
+	SysMaxSched  int            `json:"sys_max_schedules_of_one_workload"`
 }
 
 var kinds = []func(int64, []int32) *result{runMutex, runRW, runWG, runOnce, runCond}
@@ -387,6 +399,8 @@ func main() {
 	n := flag.Int64("n", 1000, "number of runs")
 	out := flag.String("out", "", "report file")
 	replay := flag.String("replay", "", "failure file to replay")
+	sysb := flag.Int("sys", -1, "systematic leg: enumerate EVERY schedule with at most this many pre-emptions for each (small) workload")
+	maxruns := flag.Int("maxruns", 20000, "systematic leg: cap on schedules per workload")
 	flag.Parse()
 	if *replay != "" {
 		b, err := os.ReadFile(*replay)
@@ -396,6 +410,9 @@ func main() {
 		}
 		var f Failure
 		json.Unmarshal(b, &f)
+		if f.Sys {
+			vs.SysBound = f.Bound
+		}
 		for i, k := range kindNames {
 			if k == f.Kind {
 				res := kinds[i](f.Seed, f.Trace)
@@ -416,17 +433,17 @@ func main() {
 		fmt.Println("REPLAY: recorded class not reproduced")
 		os.Exit(0)
 	}
+	vs.SysBound = *sysb
 	rep := Report{ByKind: map[string]int{}, Sites: map[string]int{}, ClassCounts: map[string]int{}}
 	seen := map[uint64]bool{}
-	for seed := *from; seed < *from+*n; seed++ {
-		k := int(seed % int64(len(kinds)))
-		res := kinds[k](seed, nil)
+	var seed int64
+	account := func(res *result) {
 		rep.Runs++
 		rep.ByKind[res.kind]++
 		rep.Ops += res.ops
 		rep.Steps += res.s.Steps
 		h := fnv.New64a()
-		fmt.Fprint(h, k, res.log)
+		fmt.Fprint(h, int(seed%int64(len(kinds))), res.log)
 		for _, d := range res.s.Trace {
 			h.Write([]byte{byte(d), byte(d >> 8)})
 		}
@@ -436,7 +453,7 @@ func main() {
 		}
 		if res.s.StepLim {
 			rep.StepLimit++
-			continue
+			return
 		}
 		if res.s.Stuck && len(res.fails) == 0 {
 			rep.Stuck++
@@ -454,8 +471,51 @@ func main() {
 			if rep.ClassCounts[f.Class] <= 3 {
 				f.Trace = res.s.Trace
 				f.Log = res.log
+				f.Sys, f.Bound = vs.SysBound >= 0, vs.SysBound
 				rep.Failures = append(rep.Failures, f)
 			}
+		}
+	}
+	for seed = *from; seed < *from+*n; seed++ {
+		one := func(tr []int32) *result { return kinds[int(seed%int64(len(kinds)))](seed, tr) }
+		if vs.SysBound < 0 {
+			account(one(nil))
+			continue
+		}
+		rep.SysWorkloads++
+		runs := 0
+		full := vs.SysBound
+		// iterative bounding: every schedule with <= 1 pre-emption first (always completes), then the full bound up to the cap
+	bounds:
+		for _, b := range []int{1, full} {
+			if b > full || (b == full && full == 1 && runs > 0) {
+				continue
+			}
+			vs.SysBound = b
+			var prefix []int32
+			for {
+				res := one(prefix)
+				runs++
+				if res.s.Diverged {
+					rep.SysDiverged++
+				}
+				account(res)
+				prefix = res.s.NextPrefix()
+				if prefix == nil {
+					if b == full {
+						rep.SysComplete++
+					}
+					break
+				}
+				if runs >= *maxruns {
+					rep.SysTruncated++
+					break bounds
+				}
+			}
+		}
+		vs.SysBound = full
+		if runs > rep.SysMaxSched {
+			rep.SysMaxSched = runs
 		}
 	}
 	rep.Distinct = len(seen)
